@@ -655,6 +655,7 @@ func (u *Unit) blockWrites(b *ssa.BasicBlock, ws map[string]bool, seen map[*ssa.
 			}
 		case *ssa.Select:
 			ws["ev:Select"] = true
+			ws["ev:Selected"] = true
 		case *ssa.Go:
 			name := "dyn"
 			if f := x.Common().StaticCallee(); f != nil {
